@@ -193,6 +193,11 @@ def check(case):
     with warnings.catch_warnings():
         warnings.simplefilter("ignore")
         batches = dfc.batches_of(case["rows"], case["sizes"], "float", index="time")
+        if case.get("boff"):
+            # late batches: batch b is stamped `boff[b]` seconds off its position (a negative offset makes its rows OLDER
+            # than rows that arrived before it, possibly still inside the time window)
+            batches = [dfc.make_df(rs, start=pos + off, dtype="float", index="time")
+                       for (pos, rs), off in zip(dfc.split_rows(case["rows"], case["sizes"]), case["boff"])]
         try:
             full = _run(pipe, None, batches, case.get("ex", "row"))
         except Exception as e:      # noqa: BLE001
